@@ -5,8 +5,9 @@ namespace ConnFull
 /-- the agreement between the write queue, the conn's belief (`isWAdded`) and the kernel's epoll
     registration -/
 structure InvA (g : Cfg) (s : S) : Prop where
-  /-- the conn believes EPOLLOUT is armed exactly when a backlog exists (or the connect is in progress) -/
-  wadd : s.closed = false → s.hung = false → (s.isWAdded = true ↔ (s.wl ≠ [] ∨ s.connecting = true))
+  /-- the conn believes EPOLLOUT is armed exactly when a backlog exists, or the connect is in progress, or it was
+      registered for writing by a dial that connected at once and has not been reset to reading yet -/
+  wadd : s.closed = false → s.hung = false → (s.isWAdded = true ↔ (s.wl ≠ [] ∨ s.connecting = true ∨ s.idle = true))
   /-- once registered, the kernel's interest set agrees with that belief (ET: EPOLLOUT always) -/
   kout : s.closed = false → s.reg = true → s.kOut = (s.isWAdded || g.mode == .et)
   /-- only ONESHOT disarms -/
@@ -20,6 +21,7 @@ structure InvA (g : Cfg) (s : S) : Prop where
   cev : s.connEv = true → s.connecting = true
   cre : s.rearm = true → s.connecting = true → s.connEv = true
   cnr : s.connecting = true → s.reg = true
+  idr : s.idle = true → s.reg = true
 
 theorem invA_init (g : Cfg) : InvA g init := by
   constructor <;> simp [init]
@@ -42,15 +44,19 @@ theorem E_fields {s t : S} (h : E t = E s) :
     t.isWAdded = s.isWAdded ∧ t.rearm = s.rearm ∧ t.evErr = s.evErr ∧ t.reg = s.reg ∧ t.kOut = s.kOut ∧
     t.disarmed = s.disarmed ∧ t.connecting = s.connecting ∧ t.connEv = s.connEv := by
   simp only [E, Prod.mk.injEq] at h
-  obtain ⟨h1, h2, h3, h4, h5, h6, _, _, h9, h10⟩ := h
+  obtain ⟨h1, h2, h3, h4, h5, h6, _, _, h9, h10, _⟩ := h
   exact ⟨h1, h2, h3, h4, h5, h6, h9, h10⟩
+
+theorem E_idle {s t : S} (h : E t = E s) : t.idle = s.idle := by
+  simp only [E, Prod.mk.injEq] at h
+  exact h.2.2.2.2.2.2.2.2.2.2
 
 /-- a data-only change that keeps the emptiness of the queue keeps the arming invariant -/
 theorem invA_grow {g : Cfg} {s t : S} (hi : InvA g s) (hg : Grow s t) (hemp : s.wl = [] → t.wl = []) : InvA g t := by
   obtain ⟨e1, e2, e3, e4, e5, e6, e7, e8⟩ := E_fields hg.e
   constructor
   · intro hc hh
-    rw [e1, e7, hi.wadd (hg.closed ▸ hc) (hg.hung ▸ hh)]
+    rw [e1, e7, E_idle hg.e, hi.wadd (hg.closed ▸ hc) (hg.hung ▸ hh)]
     constructor
     · intro h; rcases h with h | h
       · exact Or.inl (hg.ne h)
@@ -65,6 +71,7 @@ theorem invA_grow {g : Cfg} {s t : S} (hi : InvA g s) (hg : Grow s t) (hemp : s.
   · rw [e8, e7]; exact hi.cev
   · rw [e2, e7, e8]; exact hi.cre
   · rw [e7, e4]; exact hi.cnr
+  · rw [E_idle hg.e, e4]; exact hi.idr
 
 theorem invA_closeNow {g : Cfg} {s : S} (hi : InvA g s) : InvA g (closeNow s) := by
   constructor <;> simp [closeNow]
@@ -73,6 +80,7 @@ theorem invA_closeNow {g : Cfg} {s : S} (hi : InvA g s) : InvA g (closeNow s) :=
   · exact hi.cev
   · exact hi.cre
   · exact hi.cnr
+  · exact hi.idr
 
 /-- Write's tail on a state whose queue is non-empty: arm -/
 theorem invA_arm {g : Cfg} {s t : S} (hi : InvA g s) (hc : s.closed = false) (hg : Grow s t) (hne : t.wl ≠ []) :
@@ -86,6 +94,8 @@ theorem invA_arm {g : Cfg} {s t : S} (hi : InvA g s) (hc : s.closed = false) (hg
   have hce := hi.cev
   have hcr := hi.cre
   have hcn := hi.cnr
+  have hid := hi.idr
+  rw [← E_idle hg.e, ← e4] at hid
   rw [← e7, ← e4] at hcn
   rw [← e1, ← e4, ← e5] at hko
   rw [← e6, ← e2] at hno
@@ -107,6 +117,7 @@ theorem invA_closeNow_grow {g : Cfg} {s t : S} (hi : InvA g s) (hg : Grow s t) :
   · rw [e8, e7]; exact hi.cev
   · rw [e2, e7, e8]; exact hi.cre
   · rw [e7, e4]; exact hi.cnr
+  · rw [E_idle hg.e, e4]; exact hi.idr
 
 theorem invA_flip {g : Cfg} {s : S} (hi : InvA g s) : InvA g (flip s) := by
   constructor <;> simp [flip]
@@ -115,6 +126,7 @@ theorem invA_flip {g : Cfg} {s : S} (hi : InvA g s) : InvA g (flip s) := by
   · exact hi.cev
   · exact hi.cre
   · exact hi.cnr
+  · exact hi.idr
 
 theorem invA_flip_grow {g : Cfg} {s t : S} (hi : InvA g s) (hg : Grow s t) : InvA g (flip t) := by
   obtain ⟨e1, e2, e3, e4, e5, e6, e7, e8⟩ := E_fields hg.e
@@ -124,6 +136,7 @@ theorem invA_flip_grow {g : Cfg} {s t : S} (hi : InvA g s) (hg : Grow s t) : Inv
   · rw [e8, e7]; exact hi.cev
   · rw [e2, e7, e8]; exact hi.cre
   · rw [e7, e4]; exact hi.cnr
+  · rw [E_idle hg.e, e4]; exact hi.idr
 
 /-- the teardown of a connection whose flag is set -/
 theorem invA_teardown {g : Cfg} {s : S} (hi : InvA g s) (htp : s.tearPending = true → s.closed = true) :
@@ -133,7 +146,7 @@ theorem invA_teardown {g : Cfg} {s : S} (hi : InvA g s) (htp : s.tearPending = t
   · rename_i ht
     have hc := htp ht
     exact ⟨fun h => by simp [hc] at h, fun h => by simp [hc] at h, hi.nos, hi.rr, fun h => by simp [hc] at h,
-      hi.cev, hi.cre, hi.cnr⟩
+      hi.cev, hi.cre, hi.cnr, hi.idr⟩
   · exact hi
 
 theorem invA_finishCall {g : Cfg} {s : S} (r : S × Ret) (hi : InvA g s) (hc : s.closed = false) (hg : Grow s r.1) :
@@ -263,23 +276,24 @@ theorem invA_sendfile (g : Cfg) (s : S) (off len : Nat) (ks : List KAns) (hi : I
 
 /-- the arming invariant without the `dis` clause (which is suspended while an event is handled) -/
 structure InvK (g : Cfg) (s : S) : Prop where
-  wadd : s.closed = false → s.hung = false → (s.isWAdded = true ↔ (s.wl ≠ [] ∨ s.connecting = true))
+  wadd : s.closed = false → s.hung = false → (s.isWAdded = true ↔ (s.wl ≠ [] ∨ s.connecting = true ∨ s.idle = true))
   kout : s.closed = false → s.reg = true → s.kOut = (s.isWAdded || g.mode == .et)
   nos : g.mode ≠ .oneshot → s.disarmed = false ∧ s.rearm = false
   rr : s.rearm = true → s.reg = true
   cev : s.connEv = true → s.connecting = true
   cre : s.rearm = true → s.connecting = true → s.connEv = true
   cnr : s.connecting = true → s.reg = true
+  idr : s.idle = true → s.reg = true
 
-theorem InvA.toK {g : Cfg} {s : S} (h : InvA g s) : InvK g s := ⟨h.wadd, h.kout, h.nos, h.rr, h.cev, h.cre, h.cnr⟩
+theorem InvA.toK {g : Cfg} {s : S} (h : InvA g s) : InvK g s := ⟨h.wadd, h.kout, h.nos, h.rr, h.cev, h.cre, h.cnr, h.idr⟩
 
 /-- the kernel-side clauses as a predicate of the poller/kernel fields alone (no connect in progress) -/
-def KOK (g : Cfg) (e : Bool × Bool × Bool × Bool × Bool × Bool × List Ctl × Nat × Bool × Bool) : Prop :=
+def KOK (g : Cfg) (e : Bool × Bool × Bool × Bool × Bool × Bool × List Ctl × Nat × Bool × Bool × Bool) : Prop :=
   match e with
-  | (isWAdded, rearm, _, reg, kOut, disarmed, _, _, connecting, connEv) =>
+  | (isWAdded, rearm, _, reg, kOut, disarmed, _, _, connecting, connEv, idle) =>
     (reg = true → kOut = (isWAdded || g.mode == .et)) ∧
     (g.mode ≠ .oneshot → disarmed = false ∧ rearm = false) ∧ (rearm = true → reg = true) ∧
-    connecting = false ∧ connEv = false
+    connecting = false ∧ connEv = false ∧ (idle = true → reg = true)
 
 theorem invK_flushLoop (g : Cfg) : ∀ (fuel : Nat) (s : S) (ks : List KAns),
     s.closed = false → s.isWAdded = true → KOK g (E s) → InvK g (flushLoop g fuel s ks) := by
@@ -287,23 +301,23 @@ theorem invK_flushLoop (g : Cfg) : ∀ (fuel : Nat) (s : S) (ks : List KAns),
   induction fuel with
   | zero =>
     intro s ks hc hw hk
-    obtain ⟨k1, k2, k3, k4, k5⟩ := hk
+    obtain ⟨k1, k2, k3, k4, k5, k6⟩ := hk
     unfold flushLoop
-    exact ⟨by simp, fun _ => k1, k2, k3, by simp [k5], by simp [k4], by simp [k4]⟩
+    exact ⟨by simp, fun _ => k1, k2, k3, by simp [k5], by simp [k4], by simp [k4], k6⟩
   | succ fuel ih =>
     intro s ks hc hw hk
     have stay : ∀ t tl, s.wl = t :: tl → InvK g s := by
       intro t tl hwl
-      obtain ⟨k1, k2, k3, k4, k5⟩ := hk
-      exact ⟨fun _ _ => by simp [hw, hwl], fun _ => k1, k2, k3, by simp [k5], by simp [k4], by simp [k4]⟩
+      obtain ⟨k1, k2, k3, k4, k5, k6⟩ := hk
+      exact ⟨fun _ _ => by simp [hw, hwl], fun _ => k1, k2, k3, by simp [k5], by simp [k4], by simp [k4], k6⟩
     have closeit : InvK g (closeNow s) := by
-      obtain ⟨k1, k2, k3, k4, k5⟩ := hk
-      exact ⟨by simp [closeNow], by simp [closeNow], k2, k3, by simp [closeNow, k5], by simp [closeNow, k4], by simp [closeNow, k4]⟩
+      obtain ⟨k1, k2, k3, k4, k5, k6⟩ := hk
+      exact ⟨by simp [closeNow], by simp [closeNow], k2, k3, by simp [closeNow, k5], by simp [closeNow, k4], by simp [closeNow, k4], by simpa [closeNow] using k6⟩
     unfold flushLoop
     split
     · -- drained: c.resetRead()
       rename_i hwl
-      obtain ⟨k1, k2, k3, k4, k5⟩ := hk
+      obtain ⟨k1, k2, k3, k4, k5, k6⟩ := hk
       have hD := D_cResetRead g (stopTimer s)
       simp only [D, Prod.mk.injEq] at hD
       obtain ⟨d1, d2, d3, _, _, _⟩ := hD
@@ -401,21 +415,30 @@ theorem invK_flush (g : Cfg) (s : S) (ks : List KAns) (hi : InvK g s) (hh : s.hu
   have hc : s.closed = false := by simpa using hc
   split
   · rename_i he
-    -- by the belief clause nothing is armed for an empty queue: the resetRead is a no-op
+    -- nothing to flush: `c.resetRead()` drops the write interest a dial that connected at once was registered
+    -- with (`idle`); otherwise nothing is armed for an empty queue and it is a no-op
     have hwl : s.wl = [] := by cases hs : s.wl <;> simp_all
-    have hwf : s.isWAdded = false := by
-      cases hw : s.isWAdded
+    have hce : s.connEv = false := by
+      cases h : s.connEv
       · rfl
-      · have := (hi.wadd hc hh).mp hw; simp [hwl, hcn] at this
-    have e : cResetRead g s = s := by simp [cResetRead, hwf]
-    rw [e]; exact hi
+      · have := hi.cev h; simp [hcn] at this
+    have hwa := hi.wadd hc hh
+    have hko := hi.kout hc
+    have hno := hi.nos
+    have hrr := hi.rr
+    have hid := hi.idr
+    have hD := D_cResetRead g s
+    simp only [D, Prod.mk.injEq] at hD
+    obtain ⟨d1, d2, d3, _, _, _⟩ := hD
+    cases hm : g.mode <;> cases hr : s.reg <;> cases hw : s.isWAdded <;> cases hidl : s.idle <;>
+      (constructor <;> simp_all [cResetRead, pResetRead, kctl])
   · rename_i hne
     have hw : s.isWAdded = true := (hi.wadd hc hh).mpr (Or.inl (isEmpty_ne_true hne))
     have hce : s.connEv = false := by
       cases h : s.connEv
       · rfl
       · have := hi.cev h; simp [hcn] at this
-    exact invK_flushLoop g _ s ks hc hw ⟨hi.kout hc, hi.nos, hi.rr, hcn, hce⟩
+    exact invK_flushLoop g _ s ks hc hw ⟨hi.kout hc, hi.nos, hi.rr, hcn, hce, hi.idr⟩
 
 theorem calm_flush (g : Cfg) (s : S) (ks : List KAns) : Calm s (flush g s ks) := by
   unfold flush
@@ -440,6 +463,7 @@ theorem invA_register (g : Cfg) (s : S) (hi : InvA g s) : InvA g (register g s) 
     have hce := hi.cev
     have hcr := hi.cre
     have hcnr := hi.cnr
+    have hidr := hi.idr
     split
     · rename_i he
       have hwl : s.wl = [] := isEmpty_eq_true he
@@ -461,6 +485,21 @@ theorem invA_registerDial (g : Cfg) (s : S) (hi : InvA g s) : InvA g (registerDi
     have hrr := hi.rr
     have hce := hi.cev
     cases hm : g.mode <;> cases hre : s.rearm <;> cases hcv : s.connEv <;>
+      (constructor <;> simp_all [pAddReadWrite, kctl])
+
+theorem invA_registerDialNow (g : Cfg) (s : S) (hi : InvA g s) : InvA g (registerDialNow g s) := by
+  unfold registerDialNow
+  split
+  · exact hi
+  · rename_i h
+    have h3 : (s.hung = false ∧ s.reg = false) ∧ s.closed = false := by simpa using h
+    obtain ⟨⟨hh, hr⟩, hc⟩ := h3
+    have hno := hi.nos
+    have hrr := hi.rr
+    have hce := hi.cev
+    have hcr := hi.cre
+    have hcnr := hi.cnr
+    cases hm : g.mode <;> cases hre : s.rearm <;> cases hcv : s.connEv <;> cases hcn : s.connecting <;>
       (constructor <;> simp_all [pAddReadWrite, kctl])
 
 theorem deliverable_some {s : S} {o i e : Bool}
@@ -503,7 +542,7 @@ theorem invA_evTake (g : Cfg) (s : S) (o i e : Bool) (ks : List KAns) (hi : InvA
       split
       · rename_i hm
         have hm : g.mode = .oneshot := by simpa using hm
-        exact ⟨⟨hi.wadd, hi.kout, fun h => absurd hm h, hi.rr, hi.cev, hi.cre, hi.cnr⟩, fun _ => hm, hh, hr, hcv, rfl⟩
+        exact ⟨⟨hi.wadd, hi.kout, fun h => absurd hm h, hi.rr, hi.cev, hi.cre, hi.cnr, hi.idr⟩, fun _ => hm, hh, hr, hcv, rfl⟩
       · exact ⟨hi.toK, fun h => by simp [hdis] at h, hh, hr, hcv, rfl⟩
     obtain ⟨k1, k3, k4, k5, k8, k9⟩ := h1
     generalize (if (g.mode == Mode.oneshot) = true then { s with disarmed := true } else s) = s1 at k1 k3 k4 k5 k8 k9 ⊢
@@ -527,6 +566,7 @@ theorem invA_evTake (g : Cfg) (s : S) (o i e : Bool) (ks : List KAns) (hi : InvA
       · intro _; exact hcn
       · intro _ _; rfl
       · exact k1.cnr
+      · exact k1.idr
     · -- otherwise: flush (or nothing for the EPOLLOUT part)
       have hs2 : (if d.1 = true then (if s1.connecting = true then { s1 with connEv := true } else flush g s1 ks) else s1) =
           (if d.1 = true then flush g s1 ks else s1) := by
@@ -575,6 +615,7 @@ theorem invA_evTake (g : Cfg) (s : S) (o i e : Bool) (ks : List KAns) (hi : InvA
           · exact absurd ⟨h, hc1⟩ hA
         simp [hd1, hd2] at hra'
       · exact k6.cnr
+      · exact k6.idr
 
 theorem invA_evEnd (g : Cfg) (s : S) (hi : InvA g s) : InvA g (evEnd g s) := by
   unfold evEnd
@@ -597,6 +638,7 @@ theorem invA_evEnd (g : Cfg) (s : S) (hi : InvA g s) : InvA g (evEnd g s) := by
         have hdi := hi.dis
         have hcr := hi.cre
         have hcnr := hi.cnr
+        have hidr := hi.idr
         have hD := D_cResetRead g { s with connecting := false, connEv := false }
         simp only [D, Prod.mk.injEq] at hD
         obtain ⟨d1, d2, d3, _, _, _⟩ := hD
@@ -622,6 +664,7 @@ theorem invA_evEnd (g : Cfg) (s : S) (hi : InvA g s) : InvA g (evEnd g s) := by
         have hce := h0.cev
         have hcr := h0.cre hre
         have hcnr := h0.cnr
+        have hidr := h0.idr
         cases hc : s0.closed <;> cases hw : s0.isWAdded <;> cases hwl : s0.wl <;> cases hcn : s0.connecting <;>
           (constructor <;> simp_all [resetPollerEvent, pResetRead, pModWrite, kctl])
       · exact h0
@@ -629,18 +672,20 @@ theorem invA_evEnd (g : Cfg) (s : S) (hi : InvA g s) : InvA g (evEnd g s) := by
     split
     · split
       · rename_i hc
-        exact ⟨h1.wadd, h1.kout, h1.nos, h1.rr, fun h => by simp [hc] at h, h1.cev, h1.cre, h1.cnr⟩
+        exact ⟨h1.wadd, h1.kout, h1.nos, h1.rr, fun h => by simp [hc] at h, h1.cev, h1.cre, h1.cnr, h1.idr⟩
       · have hn := h1.nos
         have hr := h1.rr
         have hce := h1.cev
         have hcr := h1.cre
         have hcn := h1.cnr
+        have hid := h1.idr
         constructor <;> simp [flipWE, flip, stopTimer]
         · exact hn
         · exact hr
         · exact hce
         · exact hcr
         · exact hcn
+        · exact hid
     · exact h1
 
 theorem invA_evConnEnd (g : Cfg) (s : S) (hi : InvA g s) : InvA g (evConnEnd g s) := by
@@ -659,6 +704,7 @@ theorem invA_evConnEnd (g : Cfg) (s : S) (hi : InvA g s) : InvA g (evConnEnd g s
       have hdi := hi.dis
       have hcr := hi.cre
       have hcnr := hi.cnr
+      have hidr := hi.idr
       have hD := D_cResetRead g { s with connecting := false, connEv := false }
       simp only [D, Prod.mk.injEq] at hD
       obtain ⟨d1, d2, d3, _, _, _⟩ := hD
@@ -687,6 +733,7 @@ theorem invA_evRearm (g : Cfg) (s : S) (hi : InvA g s) : InvA g (evRearm g s) :=
       have hce := hi.cev
       have hcr := hi.cre hre
       have hcnr := hi.cnr
+      have hidr := hi.idr
       cases hc : s.closed <;> cases hw : s.isWAdded <;> cases hwl : s.wl <;> cases hcn : s.connecting <;>
         (constructor <;> simp_all [resetPollerEvent, pResetRead, pModWrite, kctl])
     · exact hi
@@ -698,18 +745,20 @@ theorem invA_evErrClose (g : Cfg) (s : S) (hi : InvA g s) : InvA g (evErrClose s
   · split
     · split
       · rename_i hc
-        exact ⟨hi.wadd, hi.kout, hi.nos, hi.rr, fun h => by simp [hc] at h, hi.cev, hi.cre, hi.cnr⟩
+        exact ⟨hi.wadd, hi.kout, hi.nos, hi.rr, fun h => by simp [hc] at h, hi.cev, hi.cre, hi.cnr, hi.idr⟩
       · have hn := hi.nos
         have hr := hi.rr
         have hce := hi.cev
         have hcr := hi.cre
         have hcn := hi.cnr
+        have hid := hi.idr
         constructor <;> simp [flipWE, flip, stopTimer]
         · exact hn
         · exact hr
         · exact hce
         · exact hcr
         · exact hcn
+        · exact hid
     · exact hi
 
 /-- the arming invariant does not mention the deadline fields -/
@@ -755,6 +804,7 @@ theorem invA_step (g : Cfg) (s : S) (op : Op) (hd : InvD g s) (hi : InvA g s)
   | sendfile off len ks => exact (invA_sendfile g s off len ks hi).timer (D_ghost _ _ _) (E_ghost _ _ _)
   | register => exact (invA_register g s hi).timer (D_ghost _ _ _) (E_ghost _ _ _)
   | registerDial => exact (invA_registerDial g s hi).timer (D_ghost _ _ _) (E_ghost _ _ _)
+  | registerDialNow => exact (invA_registerDialNow g s hi).timer (D_ghost _ _ _) (E_ghost _ _ _)
   | evTake o i e ks => exact (invA_evTake g s _ i e ks hi).timer (D_ghost _ _ _) (E_ghost _ _ _)
   | evEnd => exact invA_evEnd g s hi
   | evConnEnd => exact invA_evConnEnd g s hi
